@@ -15,7 +15,7 @@ COQ_TARGETS = ['Props/C07.vo', 'Run/RunC07.vo']
 PROPS_MODULE = 'Props.C07'
 THEOREMS = ['layer_roundtrip', 'layer_roundtrip_role', 'known_1_witness', 'small_layers_fit', 'document_roundtrip', 'save_succeeds',
             'visible_bit14_needed', 'font_page_u16_needed', 'default_font_page_u16_needed', 'preview_offset_needed',
-            'negative_width_needed', 'before_fix_refuted', 'before_fix_row_shift_refuted', 'after_fix_regression', 'fix_is_local',
+            'negative_width_needed', 'title_u32_needed', 'before_fix_refuted', 'before_fix_row_shift_refuted', 'after_fix_regression', 'fix_is_local',
             'mode_bytes_roundtrip']
 SWEEP_LEMMAS = ['IcyLayerProofs.short_word_sweep (all 16384 attribute words a visible cell may carry: how the reader classifies a | SHORT_DATA and a)',
                 'IcyDocProofs.mode_bytes_sweep (from_byte (to_byte v) = v and to_byte v < 256 for every variant of the four generated mode enums)',
@@ -254,7 +254,7 @@ def compare(o1, o2):
     if len(o1['layers']) != len(o2['layers']):
         out.append(('icy-layer-count-differs', '%d -> %d' % (len(o1['layers']), len(o2['layers']))))
     for i, (a, b) in enumerate(zip(o1['layers'], o2['layers'])):
-        for k in ('title', 'mode', 'color', 'vis', 'locked', 'pos_locked', 'alpha', 'alpha_locked', 'transparency', 'ox', 'oy', 'w', 'h', 'dfp'):
+        for k in ('title', 'mode', 'color', 'vis', 'locked', 'pos_locked', 'alpha', 'alpha_locked', 'transparency', 'ox', 'oy', 'base_ox', 'base_oy', 'w', 'h', 'dfp'):
             if a[k] != b[k]:
                 out.append(('icy-layer-%s-differs' % k.replace('_', '-'), 'layer %d %s: %r -> %r' % (i, k, a[k], b[k])))
         if a['role'] != b['role']:
@@ -361,6 +361,33 @@ def mutate_payload(rng, p):
             if 400 < w < (1 << 31) or 400 < h < (1 << 31): return None
     return p
 
+def mk_payload(rows, w, h, title=b't', role=0, mode=0, length=None, flags=1):
+    """a LAYER_ record around the given row bytes (python's own writer of the header, for directed damaged inputs)"""
+    hd = len(title).to_bytes(4, 'little') + title + bytes([role, 0, 0, 0, 0, mode, 0, 0, 0, 0]) + flags.to_bytes(4, 'little') + b'\0'
+    hd += (0).to_bytes(4, 'little') * 2 + (w & 0xFFFFFFFF).to_bytes(4, 'little') + (h & 0xFFFFFFFF).to_bytes(4, 'little') + (0).to_bytes(2, 'little')
+    return hd + (len(rows) if length is None else length).to_bytes(8, 'little') + rows
+
+def directed_payloads():
+    u16 = lambda v: v.to_bytes(2, 'little'); u32 = lambda v: v.to_bytes(4, 'little')
+    longc = lambda a, ch, fg=7, bg=0, pg=0: u16(a) + u32(ch) + u32(fg) + u32(bg) + u16(pg)
+    shortc = lambda a, ch, fg=7, bg=0, pg=0: u16(a | 0x4000) + bytes([ch, fg, bg, pg])
+    E = u16(0xC000); I = u16(0x8000)
+    rows = [shortc(0, 65)[:5], shortc(0, 65)[:4], shortc(0, 65)[:3], shortc(0, 65)[:2], shortc(0, 65)[:1],          # short record cut at every byte
+            longc(0, 65)[:15], longc(0, 65)[:3], longc(0, 65), longc(0, 0xD800), longc(0, 0xDFFF), longc(0, 0x110000), longc(0, 0xFFFFFFFF),
+            longc(0, 0x10FFFF) + E, longc(0x8001, 65) + shortc(0, 66), shortc(0x8001, 65) + E, E + shortc(0, 65) + E, I + I + I + shortc(0, 66),
+            I + I + shortc(0, 66) + E + shortc(1, 67) * 3, shortc(0, 65) * 3 + shortc(0, 66) * 3 + shortc(0, 67), shortc(0, 65) * 7, E + E + E,
+            E, b'', b'\0', shortc(0x3FFF, 255, 255, 255, 255) + longc(0x3FFF, 0x2588, 0xFFFFFFFF, 0x80000000, 0xFFFF) + I,
+            longc(0x4000 | 5, 65), u16(0xFFFF) + bytes(14), u16(0x7FFF) + bytes(4) + E]
+    out = [mk_payload(r, 3, 2) for r in rows]
+    out += [mk_payload(shortc(0, 65) * 2, 0, 5), mk_payload(shortc(0, 65) * 2, 2, 0), mk_payload(shortc(0, 65) * 2, 1, 5), mk_payload(b'', 0, 0),
+            mk_payload(shortc(0, 65), 3, 2, length=7), mk_payload(shortc(0, 65), 3, 2, length=0), mk_payload(shortc(0, 65) + E, 3, 2, length=(1 << 64) - 1),
+            mk_payload(shortc(0, 65) + E, 3, 2, length=(1 << 64) - 47), mk_payload(shortc(0, 65) + E, 3, 2, mode=3), mk_payload(shortc(0, 65) + E, 3, 2, mode=2, flags=0xFFFFFFFF),
+            mk_payload(shortc(0, 65) + E, -1, 2), mk_payload(shortc(0, 65) + E, 3, -2), mk_payload(shortc(0, 65) + E, 3, 2, title='täst'.encode()),
+            mk_payload(shortc(0, 65) + E, 3, 2, role=2), mk_payload(shortc(0, 65) + E, 3, 2, role=255)]
+    full = mk_payload(shortc(0, 65) + E, 3, 2)
+    out += [full[:k] for k in range(0, len(full))]                       # the header cut at every byte
+    return out
+
 IMPL_CLASS = {'load:header-size': [1, 1], 'load:length': [1, 2], 'load:layer-mode': [1, 3], 'load:font-slot': [1, 4]}
 
 def impl_class(r):
@@ -438,6 +465,8 @@ def correspondence(ctx):
         elif k < 0.2 and font0: chunks.insert(1, (rng.choice(['FONT_7', 'FONT_007', 'FONT_0']), rng.choice([font0, font0[:3], (1 << 20).to_bytes(4, 'little') + font0[4:]])))
         elif k < 0.24: chunks[0] = ('ICED', bytes(rng.randrange(256) for _ in range(15)) + bytes([rng.randrange(4), 0, 0, 0]))
         dmg.append(chunks)
+    for p in directed_payloads():
+        dmg.append([('ICED', iced_ok), ('LAYER_0', p), ('END', b'')])
     dist['damaged_payloads'] = len(dmg)
     dcases = ['icyload ' + L.hexs(L.make_icy(c)) for c in dmg]
     dimpl = ctx.impl(dcases, per_case_timeout=20, mem_mb=2048) if dcases else []
@@ -476,11 +505,11 @@ def first_diff(a, b):
 def search(ctx, broken):
     rng = ctx.rng
     docs = list(directed_docs()) + known_docs()
-    n = ctx.n(260, 2200)
+    n = ctx.n(1200, 12000)
     for i in range(n):
         r = rng.random()
         docs.append(('rand-%d' % i, rand_doc(rng, 'small' if r < 0.6 else ('medium' if r < 0.97 else 'large'))))
-    for i in range(ctx.n(2, 14)):
+    for i in range(ctx.n(3, 40)):
         docs.append(('large-%d' % i, rand_doc(rng, 'large')))
     cases, impl = run_docs(ctx, docs, False, timeout=120)
     failures = []
